@@ -31,6 +31,11 @@ QUERYD = ("query", "disk", 10, 100, 30, 60)
 RESUME = ("resume", "mem", 25, 250, 40, 80)
 RESUMED = ("resume", "disk", 8, 80, 40, 80)
 
+VIEW = ("view", "mem", 30, 300, 60, 120)
+VIEWD = ("view", "disk", 12, 120, 60, 120)
+VIEWM = ("viewmeta", "mem", 20, 200, 60, 120)
+VIEWMD = ("viewmeta", "disk", 8, 80, 60, 120)
+
 LIFE = ("life", "mem", 40, 600, 10, 14)
 LIFED = ("life", "disk", 25, 300, 10, 14)
 
@@ -94,6 +99,13 @@ PROPS = {
                 what="feeds (live, dump) started through up to three handles on three collections; random orders of terminator closes, "
                      "collection drops (through any handle), handle closes, bucket deletion; after every event the done state of every feed, "
                      "callbacks after done, and probes that surviving feeds still receive events"),
+    "C12": dict(modules=["Rosmar.Properties.C12"], slices=[VIEW, VIEWD, VIEWM, VIEWMD],
+                proj=P(rb=["row", "row.v", "row.cas", "row.json", "row.x", "row.tomb"], results=True, ops={"view", "putddoc", "delddoc", "ddocs", "lastcas"}),
+                what="design documents put / replaced / deleted on two collections; write histories through every entry point (with and "
+                     "without WithMeta writes), purges, reopening; view queries (View and ViewQuery) over a family of 4 JavaScript map "
+                     "functions (by id, by a body property of any JSON type, array keys from a loop, by an xattr) x reduce (_count, _sum) with "
+                     "random key / range / inclusive_end / keys / descending / limit / reduce / group / group_level / stale parameters at "
+                     "random positions; results compared with the model and with an independent oracle (lib/viewspec.py) over the KV read-back"),
     "C20": dict(modules=["Rosmar.Properties.C20"], note_modules=["Rosmar.Properties.C20Known"], slices=[LIFE, LIFED], proj=proj_life,
                 what="forced schedules placing Close / CloseAndDelete / DropDataStore against a writer (at every instrumentation point of a "
                      "write), a feed start, a feed delivery and the expiry-timer callback, on both bucket kinds, each in its own child process "
